@@ -1,0 +1,104 @@
+//go:build verif
+
+package tls
+
+import (
+	"errors"
+	"io"
+)
+
+// Accessors for the /verif monitors (property C25): direct access to the record
+// protection layer (halfConn.encrypt / decrypt, extractPadding, sequence number)
+// for a chosen (version, suite, keys). No behaviour, no assertions.
+
+// VerifHalfConn wraps one direction of the record layer.
+type VerifHalfConn struct {
+	hc halfConn
+}
+
+// VerifSuiteLens returns the key material lengths of a TLS 1.0-1.2 suite (looked up the way the handshake does)
+// or of a TLS 1.3 suite (macLen 0, ivLen 12).
+func VerifSuiteLens(version, id uint16) (macLen, keyLen, ivLen int, ok bool) {
+	if version == VersionTLS13 {
+		s := cipherSuiteTLS13ByID(id)
+		if s == nil {
+			return 0, 0, 0, false
+		}
+		return 0, s.keyLen, aeadNonceLength, true
+	}
+	s := cipherSuiteByID(id)
+	if s == nil {
+		return 0, 0, 0, false
+	}
+	return s.macLen, s.keyLen, s.ivLen, true
+}
+
+// VerifNewHalfConn builds the record protection state that the handshake would
+// install for (version, suite) from raw key material: macKey/key/iv as cut from
+// the key block (TLS 1.0-1.2) or key/iv as derived from a traffic secret (TLS 1.3).
+// isRead selects the decrypting direction for CBC suites.
+func VerifNewHalfConn(version, id uint16, macKey, key, iv []byte, isRead bool) (*VerifHalfConn, error) {
+	h := &VerifHalfConn{}
+	h.hc.version = version
+	if version == VersionTLS13 {
+		s := cipherSuiteTLS13ByID(id)
+		if s == nil {
+			return nil, errors.New("verif: unknown TLS 1.3 suite")
+		}
+		h.hc.cipher = s.aead(key, iv)
+		return h, nil
+	}
+	s := cipherSuiteByID(id)
+	if s == nil {
+		return nil, errors.New("verif: unknown suite")
+	}
+	if s.cipher != nil {
+		h.hc.cipher = s.cipher(key, iv, isRead)
+		h.hc.mac = s.mac(macKey)
+	} else {
+		h.hc.cipher = s.aead(key, iv)
+	}
+	return h, nil
+}
+
+// VerifNewHalfConnFromSecret builds a TLS 1.3 state from a traffic secret via setTrafficSecret.
+func VerifNewHalfConnFromSecret(id uint16, secret []byte) (*VerifHalfConn, error) {
+	s := cipherSuiteTLS13ByID(id)
+	if s == nil {
+		return nil, errors.New("verif: unknown TLS 1.3 suite")
+	}
+	h := &VerifHalfConn{}
+	h.hc.version = VersionTLS13
+	h.hc.setTrafficSecret(s, secret)
+	return h, nil
+}
+
+// Encrypt calls halfConn.encrypt: record must hold the 5-byte header.
+func (h *VerifHalfConn) Encrypt(record, payload []byte, rand io.Reader) ([]byte, error) {
+	return h.hc.encrypt(record, payload, rand)
+}
+
+// Decrypt calls halfConn.decrypt on a complete record (header included; modified in place).
+func (h *VerifHalfConn) Decrypt(record []byte) (plaintext []byte, typ uint8, err error) {
+	p, t, err := h.hc.decrypt(record)
+	return p, uint8(t), err
+}
+
+// Seq returns the current sequence number.
+func (h *VerifHalfConn) Seq() (s [8]byte) { return h.hc.seq }
+
+// SetSeq overwrites the sequence number.
+func (h *VerifHalfConn) SetSeq(s [8]byte) { h.hc.seq = s }
+
+// ExplicitNonceLen returns halfConn.explicitNonceLen().
+func (h *VerifHalfConn) ExplicitNonceLen() int { return h.hc.explicitNonceLen() }
+
+// VerifExtractPadding calls extractPadding.
+func VerifExtractPadding(payload []byte) (toRemove int, good byte) { return extractPadding(payload) }
+
+// Record layer limits as compiled in.
+const (
+	VerifMaxPlaintext       = maxPlaintext
+	VerifMaxCiphertext      = maxCiphertext
+	VerifMaxCiphertextTLS13 = maxCiphertextTLS13
+)
